@@ -92,7 +92,7 @@ Print Assumptions data_writes_preserve_leases.
 Theorem fresh_container_ok :
   forall maxsz v nodeid we,
     layout_ok maxsz (mut_header v nodeid we) = true /\ abs_data (mut_header v nodeid we) = Ok [].
-Proof. intros. split; [apply mut_header_ok|apply mut_header_empty]. Qed.
+Proof. exact fresh_container_ok_proof. Qed.
 Print Assumptions fresh_container_ok.
 
 (* ---- the hypotheses are satisfiable; the definitions compute ---------------------------------- *)
